@@ -200,7 +200,7 @@ func TestVerifC03(t *testing.T) {
 			report(w.Scenario, hist, "TrustedBridge differs after save+load", "")
 		}
 		for id := range s.Srv.sessions {
-			if s.Srv.LastPostMessage(id) != r.Srv.LastPostMessage(id) {
+			if VerifMarker(s.Srv, id) != VerifMarker(r.Srv, id) {
 				report(w.Scenario, hist, "duplicate-detection marker differs after save+load", vid(id))
 			}
 		}
